@@ -408,6 +408,15 @@ fn next_lock_handle() -> u64 {
     handle
 }
 
+/// Make sure no handle up to and including `handle` is handed out again.
+///
+/// Handles read back from a serialized lock table or from the transaction log were issued by
+/// an earlier process, whose counter this process does not share; a fresh handle equal to a
+/// restored one would let the release of one transaction's handle drop another's locks.
+fn reserve_lock_handles_through(handle: u64) {
+    LOCK_COUNTER.fetch_max(handle.saturating_add(1), Ordering::Relaxed);
+}
+
 /// Returns the current lock handle counter value (for monitoring).
 #[must_use]
 pub fn lock_handle_current() -> u64 {
@@ -664,6 +673,9 @@ impl LockManager {
 
     #[must_use]
     pub fn from_serializable(state: SerializableLockState) -> Self {
+        for lock in state.locks.values() {
+            reserve_lock_handles_through(lock.lock_handle);
+        }
         Self {
             locks: RwLock::new(state.locks),
             tx_locks: RwLock::new(state.tx_locks),
@@ -1145,9 +1157,12 @@ impl DistributedTxCoordinator {
             // Restore votes with persisted lock handles
             for (shard, vote_kind) in &prepared.votes {
                 let vote = match vote_kind {
-                    crate::tx_wal::PrepareVoteKind::Yes { lock_handle } => PrepareVote::Yes {
-                        lock_handle: *lock_handle,
-                        delta: DeltaVector::zero(0),
+                    crate::tx_wal::PrepareVoteKind::Yes { lock_handle } => {
+                        reserve_lock_handles_through(*lock_handle);
+                        PrepareVote::Yes {
+                            lock_handle: *lock_handle,
+                            delta: DeltaVector::zero(0),
+                        }
                     },
                     crate::tx_wal::PrepareVoteKind::No => PrepareVote::No {
                         reason: "recovered from WAL".to_string(),
@@ -1187,6 +1202,7 @@ impl DistributedTxCoordinator {
                 lock_handle = orphan.lock_handle,
                 "Releasing orphaned lock from crashed commit"
             );
+            reserve_lock_handles_through(orphan.lock_handle);
             self.lock_manager
                 .release_by_handle_with_wait_cleanup(orphan.lock_handle, &self.wait_graph);
             stats.lock_releases_recovered += 1;
